@@ -29,7 +29,7 @@ PROPS = {
         "modelled": ["UpdateExperimentStatus, updateTrialsSummary, getObjectiveMetricValue (experiment/util/status_util.go) as Katib.Exp.updateStatus/summarise/objectiveOf"],
         "level_text": "Lean theorems (C05_lists, C05_partition, C05_counters, C05_classify, C05_optimal(+_minimize/_maximize), C05_order_invariant, "
                       "C05_objective_strategy) for every trial list of the model of updateTrialsSummary; tie to util.UpdateExperimentStatus by a "
-                      "differential run, observed Go status judged by the executable oracle",
+                      "differential run, observed Go status judged by the executable oracle; regenerated-from-source tie C05_classify_is_source (the classification chain of updateTrialsSummary)",
         "level_note": "trusted: Lean kernel; harness/check; ParseFloat oracle; optimum statements assume every available objective text is numeric "
                       "(the property's quantifier); non-numeric texts are covered by the correspondence only",
         "assumptions": ["ParseFloat key order-isomorphic to float order", "trial names are unique (Kubernetes)"],
@@ -43,7 +43,7 @@ PROPS = {
         "modelled": ["UpdateExperimentStatusCondition, Mark* / setCondition (experiments/v1beta1/util.go) as Katib.Exp.updateCondition, Katib.Cond.set"],
         "level_text": "Lean theorems C03_verdict (verdict = goal > failed > max-trials > suggestion-end > running, with reasons and completion time), "
                       "C03_exclusive, C03_running_false, C03_frozen, C03_precedence, C03_rules for every budget/counter/condition list; tie to "
-                      "util.UpdateExperimentStatus by differential run + oracle. Stability over reconcile sequences: controller model (C03Ctl).",
+                      "util.UpdateExperimentStatus by differential run + oracle. Stability over reconcile sequences: controller model (C03Ctl); C03_frozen_verdict_world (no hypothesis on the schedule: any lag, faults, aborts, budget edits, deletions): an Experiment that some snapshot shows Created and completed with a verdict that is not restartable (Failed, goal reached, suggestion end, any verdict under Never) still exists with the identical condition list and completion time (history relation EPast with the resourceVersion check, plan guard FGuard); C03_exclusive_world; C03_completed_is_created_world; regenerated-from-source ties: C03_restartable_is_source (IsCompletedExperimentRestartable), C03_reconcile_is_source (the experiment reconcile rebuilt from the path conditions of its calls).",
         "level_note": "trusted: Lean kernel; harness/check; ParseFloat oracle",
         "assumptions": ["condition status is True/False (katib never writes Unknown)"],
     },
@@ -55,7 +55,7 @@ PROPS = {
                     "fake algorithm / early-stopping / DB-manager services", "typed reads inside a reconcile come from a snapshot (informer cache), run objects are read live"],
         "modelled": ["ReconcileExperiment.Reconcile / ReconcileSuggestion.Reconcile / ReconcileTrial.Reconcile and helpers as Katib.Ctl.expPlan / sugPlan / trialPlan",
                      "API-server semantics as Katib.Ctl.applyCall", "the op/step state machine Katib.Ctl.step"],
-        "level_text": 'C01_total: for every list of simulator operations (reconciles of the three controllers in any order, every typed kind read from an arbitrary earlier snapshot, any fault mask and abort point, any environment events) an unedited experiment with maxTrialCount = m never has more than m trials, its suggestion never more than m assignments nor requests > m, every trial is named by an assignment and assignments only grow by appending (invariant WInv + Past, resourceVersion identifies content); C01_parallel: over every such list the trials of an experiment that are not completed never exceed parallelTrialCount (#trials <= #assignments <= #completed + parallel; completion is permanent, so a stale view only under-counts completed trials); plan-level theorem for no-create-after-verdict; model tied to the real reconcilers by exact store/write-log correspondence on generated schedules; observed stores judged by the C01 oracle; C03_frozen_verdict_world (no hypothesis on the schedule: any lag, faults, aborts, budget edits, deletions): an Experiment that some snapshot shows Created and completed with a verdict that is not restartable (Failed, goal reached, suggestion end, any verdict under Never) still exists with the identical condition list and completion time (history relation EPast with the resourceVersion check, plan guard FGuard)',
+        "level_text": 'C01_total: for every list of simulator operations (reconciles of the three controllers in any order, every typed kind read from an arbitrary earlier snapshot, any fault mask and abort point, any environment events) an unedited experiment with maxTrialCount = m never has more than m trials, its suggestion never more than m assignments nor requests > m, every trial is named by an assignment and assignments only grow by appending (invariant WInv + Past, resourceVersion identifies content); C01_parallel: over every such list the trials of an experiment that are not completed never exceed parallelTrialCount (#trials <= #assignments <= #completed + parallel; completion is permanent, so a stale view only under-counts completed trials); plan-level theorem for no-create-after-verdict; model tied to the real reconcilers by exact store/write-log correspondence on generated schedules; observed stores judged by the C01 oracle; regenerated-from-source ties: C01_reconcile_experiment_is_source, C01_reconcile_trials_is_source, C01_reconcile_suggestions_is_source (ReconcileExperiment / ReconcileTrials / ReconcileSuggestions rebuilt from the path conditions of their calls)',
         "level_note": "trusted: Lean kernel; harness/check; fake client as API server; views monotone per kind; the tie between Lean model and Go controllers is differential (sampling)",
         "assumptions": ["informer caches are monotone per kind", "run objects are removed by others only after their Trial completed", "algorithm service returns fresh names"],
     },
@@ -79,7 +79,7 @@ PROPS = {
                     "fake algorithm / early-stopping / DB-manager services", "typed reads inside a reconcile come from a snapshot (informer cache), run objects are read live"],
         "modelled": ["ReconcileExperiment.Reconcile / ReconcileSuggestion.Reconcile / ReconcileTrial.Reconcile and helpers as Katib.Ctl.expPlan / sugPlan / trialPlan",
                      "API-server semantics as Katib.Ctl.applyCall", "the op/step state machine Katib.Ctl.step", "GetDeployedJobStatus on the two condition-expression shapes as Katib.Job.jobStatus (GJSON itself is not modelled beyond them)"],
-        "level_text": 'C06_permanent: over every list of simulator operations (no hypothesis on the schedule: arbitrary lagging reads, fault masks, abort points, environment events) a trial never disappears, every condition other than Running that was True in any earlier snapshot is True now (terminal verdicts are permanent) and no trial is both Succeeded and EarlyStopped (invariants TInv/KInv + history relation TPast); C06_verdict_guard: every status write of every reconcile obeys the verdict rules (Succeeded needs job success and an objective value and excludes other verdicts; failure first; MetricsUnavailable only without objective value); correspondence + oracle on generated schedules',
+        "level_text": 'C06_permanent: over every list of simulator operations (no hypothesis on the schedule: arbitrary lagging reads, fault masks, abort points, environment events) a trial never disappears, every condition other than Running that was True in any earlier snapshot is True now (terminal verdicts are permanent) and no trial is both Succeeded and EarlyStopped (invariants TInv/KInv + history relation TPast); C06_verdict_guard: every status write of every reconcile obeys the verdict rules (Succeeded needs job success and an objective value and excludes other verdicts; failure first; MetricsUnavailable only without objective value); correspondence + oracle on generated schedules; job status documents: C06J_failure_first, C06J_succeeded_iff, C06J_only_expression_members_matter, C06_jobstate_is_document_model; regenerated-from-source ties C06_update_condition_is_source (UpdateTrialStatusCondition) and C06_reconcile_trial_is_source (reconcileTrial tail)',
         "level_note": "trusted: Lean kernel; harness/check; fake client as API server; views monotone per kind; the tie between Lean model and Go controllers is differential (sampling)",
         "assumptions": ["informer caches are monotone per kind", "run objects are removed by others only after their Trial completed", "algorithm service returns fresh names"],
     },
@@ -91,7 +91,7 @@ PROPS = {
                     "fake algorithm / early-stopping / DB-manager services", "typed reads inside a reconcile come from a snapshot (informer cache), run objects are read live"],
         "modelled": ["ReconcileExperiment.Reconcile / ReconcileSuggestion.Reconcile / ReconcileTrial.Reconcile and helpers as Katib.Ctl.expPlan / sugPlan / trialPlan",
                      "API-server semantics as Katib.Ctl.applyCall", "the op/step state machine Katib.Ctl.step"],
-        "level_text": 'C07_deleted_only_when_completed: over every list of simulator operations (no hypothesis on the schedule) a run object that existed in any earlier snapshot and is gone belongs to a Trial that still exists and is completed, and run-object keys are unique (at most one run object per Trial at any time); plan-level: C07_run_object_guard (created only for a not-completed Trial without run object, deleted only for a completed non-retained one), C07_at_most_one_create, C07_db_before_finalizer, C07_finalizer_release_only_after_db; correspondence + oracle on generated schedules; C07_quiescent_cleanup: for every store in which the trial controller has no write to issue for a Trial that is not being deleted, the Trial holds its finalizer and is Created, a completed Trial without retain has no run object and a Trial that is not completed has one; C07_retained_not_deleted: the plan of a retaining Trial never deletes the run object',
+        "level_text": 'C07_deleted_only_when_completed: over every list of simulator operations (no hypothesis on the schedule) a run object that existed in any earlier snapshot and is gone belongs to a Trial that still exists and is completed, and run-object keys are unique (at most one run object per Trial at any time); plan-level: C07_run_object_guard (created only for a not-completed Trial without run object, deleted only for a completed non-retained one), C07_at_most_one_create, C07_db_before_finalizer, C07_finalizer_release_only_after_db; correspondence + oracle on generated schedules; C07_quiescent_cleanup: for every store in which the trial controller has no write to issue for a Trial that is not being deleted, the Trial holds its finalizer and is Created, a completed Trial without retain has no run object and a Trial that is not completed has one; C07_retained_not_deleted: the plan of a retaining Trial never deletes the run object; regenerated-from-source ties C07_reconcile_is_source (trial Reconcile / finalizers), C07_create_is_source, C07_delete_is_source (reconcileJob)',
         "level_note": "trusted: Lean kernel; harness/check; fake client as API server; views monotone per kind; the tie between Lean model and Go controllers is differential (sampling)",
         "assumptions": ["informer caches are monotone per kind", "run objects are removed by others only after their Trial completed", "algorithm service returns fresh names"],
     },
@@ -103,7 +103,7 @@ PROPS = {
                     "fake algorithm / early-stopping / DB-manager services", "typed reads inside a reconcile come from a snapshot (informer cache), run objects are read live"],
         "modelled": ["ReconcileExperiment.Reconcile / ReconcileSuggestion.Reconcile / ReconcileTrial.Reconcile and helpers as Katib.Ctl.expPlan / sugPlan / trialPlan",
                      "API-server semantics as Katib.Ctl.applyCall", "the op/step state machine Katib.Ctl.step"],
-        "level_text": 'append-only / atomic-sync theorems about the suggestion reconciler plan (C08_sync_guard, C08_atomic, C08_wrong_size) and, over every list of simulator operations, C01_total: the assignment list of any earlier snapshot is a prefix of the current one, count = number of assignments <= requests bound; C08_count_and_bound_world (no hypothesis on the schedule): suggestionCount = number of assignments, which was requested in some snapshot; C08_names_unique_world (no hypothesis): the assignment names of every Suggestion are pairwise distinct in every snapshot (sequencing-aware plan predicate Prog.NamesB: the appending write follows the RPC whose reply it appends; model assumption: the algorithm service numbers its names from one counter); correspondence + oracle on generated schedules',
+        "level_text": 'append-only / atomic-sync theorems about the suggestion reconciler plan (C08_sync_guard, C08_atomic, C08_wrong_size) and, over every list of simulator operations, C01_total: the assignment list of any earlier snapshot is a prefix of the current one, count = number of assignments <= requests bound; C08_count_and_bound_world (no hypothesis on the schedule): suggestionCount = number of assignments, which was requested in some snapshot; C08_names_unique_world (no hypothesis): the assignment names of every Suggestion are pairwise distinct in every snapshot (sequencing-aware plan predicate Prog.NamesB: the appending write follows the RPC whose reply it appends; model assumption: the algorithm service numbers its names from one counter); correspondence + oracle on generated schedules; regenerated-from-source tie C08_sync_is_source (SyncAssignments)',
         "level_note": "trusted: Lean kernel; harness/check; fake client as API server; views monotone per kind; the tie between Lean model and Go controllers is differential (sampling)",
         "assumptions": ["informer caches are monotone per kind", "run objects are removed by others only after their Trial completed", "algorithm service returns fresh names"],
     },
@@ -115,7 +115,7 @@ PROPS = {
                     "fake algorithm / early-stopping / DB-manager services", "typed reads inside a reconcile come from a snapshot (informer cache), run objects are read live"],
         "modelled": ["ReconcileExperiment.Reconcile / ReconcileSuggestion.Reconcile / ReconcileTrial.Reconcile and helpers as Katib.Ctl.expPlan / sugPlan / trialPlan",
                      "API-server semantics as Katib.Ctl.applyCall", "the op/step state machine Katib.Ctl.step"],
-        "level_text": 'request-content theorems about the suggestion reconciler model; correspondence + oracle on schedules with two namespaces / equal names; C09_trial_selectors_reserved / C09_trial_list_sites over the regenerated table of label-selected List calls: the Trial lists of the controllers select by the reserved experiment-name label only',
+        "level_text": 'request-content theorems about the suggestion reconciler model; correspondence + oracle on schedules with two namespaces / equal names; C09_trial_selectors_reserved / C09_trial_list_sites over the regenerated table of label-selected List calls: the Trial lists of the controllers select by the reserved experiment-name label only; C09_sent_is_source (continue guards of ConvertTrials)',
         "level_note": "trusted: Lean kernel; harness/check; fake client as API server; views monotone per kind; the tie between Lean model and Go controllers is differential (sampling)",
         "assumptions": ["informer caches are monotone per kind", "run objects are removed by others only after their Trial completed", "algorithm service returns fresh names"],
     },
@@ -127,7 +127,7 @@ PROPS = {
                     "fake algorithm / early-stopping / DB-manager services", "typed reads inside a reconcile come from a snapshot (informer cache), run objects are read live"],
         "modelled": ["ReconcileExperiment.Reconcile / ReconcileSuggestion.Reconcile / ReconcileTrial.Reconcile and helpers as Katib.Ctl.expPlan / sugPlan / trialPlan",
                      "API-server semantics as Katib.Ctl.applyCall", "the op/step state machine Katib.Ctl.step"],
-        "level_text": 'resume-policy theorems about the controller model; correspondence + oracle on schedules with budget raises; C16_quiescent_cleanup: for every store in which the experiment and suggestion controllers have no write to issue, a completed Experiment under Never / FromVolume has a completed or restarting Suggestion, and a Succeeded Suggestion has neither Deployment nor Service left',
+        "level_text": 'resume-policy theorems about the controller model; correspondence + oracle on schedules with budget raises; C16_quiescent_cleanup: for every store in which the experiment and suggestion controllers have no write to issue, a completed Experiment under Never / FromVolume has a completed or restarting Suggestion, and a Succeeded Suggestion has neither Deployment nor Service left; regenerated-from-source ties C16_suggestion_controller_is_source, C16_reconcile_suggestion_is_source, C16_cleanup_restart_guards_are_source',
         "level_note": "trusted: Lean kernel; harness/check; fake client as API server; views monotone per kind; the tie between Lean model and Go controllers is differential (sampling)",
         "assumptions": ["informer caches are monotone per kind", "run objects are removed by others only after their Trial completed", "algorithm service returns fresh names"],
     },
@@ -157,7 +157,7 @@ PROPS = {
         "trusted": ["equality.Semantic.DeepEqual is an oracle for 'the rest of the spec is unchanged'", "IsCompletedExperimentRestartable evaluated Go-side (modelled and proved in C03/C16)"],
         "modelled": ["the oldInst != nil branch of DefaultValidator.ValidateExperiment as Katib.Upd.updErrs/admitUpdate"],
         "level_text": "Lean theorems C15_iff (admitted <=> untouched, or only budget fields differ + restartable-if-completed + maxTrialCount > status.trials), C15_noop, "
-                      "C15_only_budget, C15_create_checks_kept for an arbitrary 'rest of spec' type; tie to the real validator over reflection-enumerated edits",
+                      "C15_only_budget, C15_create_checks_kept for an arbitrary 'rest of spec' type; tie to the real validator over reflection-enumerated edits; regenerated-from-source ties C15_update_errors_are_source (update branch of ValidateExperiment) and C03_restartable_is_source",
         "level_note": "trusted: Lean kernel; harness/check; DeepEqual oracle; creation-time checks are an input (createOk) of the update model",
         "assumptions": ["the mutating webhook re-defaults the object before validation"],
     },
@@ -186,7 +186,7 @@ PROPS = {
         "trusted": ["sigs.k8s.io/yaml round trip of the generated katib-config", "owner-reference check (SetControllerReference) evaluated Go-side"],
         "modelled": ["General.DesiredDeployment/DesiredService/DesiredVolume/DesiredRBAC, desiredContainers, util.GetSuggestion*Name, GetAlgorithmEndpoint, SuggestionLabels as Katib.Comp.*"],
         "level_text": "Lean theorems C17_selector, C17_ports, C17_endpoint, C17_listening, C17_reserved_port_rejected, C17_volume, C17_ns, C17_rbac_partial (default service account) and "
-                      "C17_rbac_counterexample (custom serviceAccountName: known finding) for every suggestion and config; differential run + cross-object coherence oracle",
+                      "C17_rbac_counterexample (custom serviceAccountName: known finding) for every suggestion and config; differential run + cross-object coherence oracle; regenerated-from-source tie C17_volume_rbac_readiness_guards_are_source (ReconcileSuggestion)",
         "level_note": "trusted: Lean kernel; harness/check; katib-config parsing (katibconfig.GetSuggestionConfigData) exercised but not modelled",
         "assumptions": ["labels are compared as sets (Go maps)"],
     },
@@ -203,7 +203,7 @@ PROPS = {
                      "wrapWorkerContainer, isPrimaryPod, needWrapWorkerContainer, getKatibJob as Katib.Pod.*"],
         "level_text": "Lean theorems C12_light(+_keeps) (non-primary and push pods: labels only, never rejected), C12_full (original containers kept in order, exactly one collector appended, "
                       "process-namespace sharing, labels), C12_volume, C12_args(+_path), C12_command_verbatim, C12_unrelated, C12_owner_walk for every pod/Trial/environment; differential run of the "
-                      "real webhook against the model + pod-level oracle",
+                      "real webhook against the model + pod-level oracle; regenerated-from-source ties C12_mutate_is_source, C12_volume_wrap_guards_are_source (SidecarInjector.Mutate)",
         "level_note": "trusted: Lean kernel; harness/check; pods whose primary container has no explicit command (image-registry lookup) and JSON patch generation in Handle are not modelled",
         "assumptions": ["the primary container has an explicit command (otherwise the webhook asks the image registry)", "ownership graphs are acyclic (the API server guarantees it via UIDs)"],
     },
